@@ -94,7 +94,15 @@ fn observe(c: &Case) -> Obs {
   let spec = ModuleSpecifier::parse(&url).unwrap();
   let headers = c.label.map(|l| {
     let mt = if c.json { "application/json" } else { "application/javascript" };
-    vec![("content-type".to_string(), format!("{}; charset={}", mt, l))]
+    // the charset parameter is not always the first one, nor written in lower case
+    let variant = c.bytes.iter().map(|b| *b as usize).sum::<usize>() % 4;
+    let value = match variant {
+      0 => format!("{}; charset={}", mt, l),
+      1 => format!("{}; version=5; charset={}", mt, l),
+      2 => format!("{};charset={}; boundary=x", mt, l),
+      _ => format!("{}; a=b; c=d; charset={}", mt, l),
+    };
+    vec![("content-type".to_string(), value)]
   });
   let w = World {
     specs: vec![spec.clone()],
